@@ -125,7 +125,8 @@ WellFormedOf(P, Es) == \A e \in Es : /\ e.from \in {START} \cup (1..Len(P))
                                      /\ e.to \in (1..Len(P)) \cup {END}
 ForwardOf(Es) == \A e \in Es : e.from < e.to
 AllMatchedOf(P) == \A i \in 1..Len(P) : P[i].role = "RF" => P[i].use \cup P[i].blk # {}
-ConnectedOf(P, Es) ==
+ConnectedOf(P, Esx) ==
+    LET Es == TLCEval(Esx) IN
     AllMatchedOf(P) =>
         /\ (1..Len(P)) \subseteq FwdReach({START}, Es, Len(P) + 2)
         /\ (1..Len(P)) \subseteq BwdReach({END}, Es, Len(P) + 2)
@@ -136,7 +137,8 @@ WritesR(s, x)  == x \in s.w \cup s.c
 MemConflict(a, b) == \E x \in a.r \cup a.w \cup a.c : TouchesR(b, x) /\ (WritesR(a, x) \/ WritesR(b, x))
 MemEdges(Es) == {e \in Es : e.l \in MemLabels}
 \* OrderedThrough: every conflicting pair i < j is ordered through the edges Ds
-OrderedThrough(P, T, Ds) ==
+OrderedThrough(P, T, Dsx) ==
+    LET Ds == TLCEval(Dsx) IN      \* (TLCEval: evaluate the edge set once, not at every use)
     \A i \in Nodes(P, T) :
         LET later == {j \in Nodes(P, T) : i < j /\ MemConflict(Sum(P, T, i), Sum(P, T, j))} IN
         later # {} => later \subseteq FwdReach({i}, Ds, Len(P) + 2)
@@ -165,7 +167,7 @@ FrConflict(a, b) == \/ a.use \cap (b.use \cup b.blk) # {}
 StableEdges(Es) == {e \in Es : e.l = "Stable"}
 SchedEdges(Es)  == {e \in Es : e.l = "Sched"}
 FrameOrderedOf(P, Es) ==
-    LET Ss == StableEdges(Es)  Ts == SchedEdges(Es) IN
+    LET Ss == TLCEval(StableEdges(Es))  Ts == TLCEval(SchedEdges(Es)) IN
     \A i \in {i \in 1..Len(P) : IsRF(P, i)} :
         LET later  == {j \in 1..Len(P) : i < j /\ IsRF(P, j) /\ FrConflict(P[i], P[j])}
             tlater == {j \in later : P[i].timed /\ P[j].timed}
